@@ -73,6 +73,42 @@ Corollary copy_any_buffer_size : forall m src, (0 < m)%nat ->
   copy_loop (S (src_measure src)) m src = Some (concat src).
 Proof. intros. apply copy_loop_preserves; [assumption | lia]. Qed.
 
+(* the read step in general: bytes may arrive together with an error *)
+Lemma all_empty_concat src : all_empty src = true -> concat src = [].
+Proof.
+  induction src as [|s rest IH]; intros H; [reflexivity|].
+  cbn [all_empty forallb] in H. apply andb_true_iff in H. destruct H as [H1 H2].
+  destruct s; [|discriminate]. cbn [concat app]. apply IH. exact H2.
+Qed.
+
+Lemma copy_loop_st_preserves m fin : (0 < m)%nat -> forall fuel src,
+  (src_measure src < fuel)%nat -> copy_loop_st fuel m fin src = Some (concat src).
+Proof.
+  intros Hm. induction fuel as [|f IH]; intros src Hf; [lia|].
+  cbn [copy_loop_st]. unfold src_read_st. destruct (src_read m src) as [[d s'] e] eqn:E. destruct e.
+  - apply src_read_eof in E. destruct E as [_ ->].
+    destruct (fin =? 0)%N eqn:F; [reflexivity|]. rewrite F. reflexivity.
+  - pose proof (src_read_conserves _ _ _ _ _ E) as Hc.
+    destruct (src_read_progress _ _ _ _ Hm E) as [_ Hlt].
+    destruct (negb (fin =? 0)%N && all_empty s') eqn:C.
+    + apply andb_true_iff in C. destruct C as [C1 C2]. rewrite C1.
+      rewrite <- Hc, (all_empty_concat _ C2), app_nil_r. reflexivity.
+    + cbn [N.eqb negb]. rewrite IH by lia. now rewrite Hc.
+Qed.
+
+(* all bytes read are written, whatever error accompanies the last of them, for every
+   segmentation *)
+Theorem copy_preserves_stream_st : forall fin (src : list str), copy_buffer_st fin src = Ok (concat src).
+Proof.
+  intros fin src. unfold copy_buffer_st. rewrite (copy_loop_st_preserves _ fin copy_buf_pos) by lia. reflexivity.
+Qed.
+
+Example copy_st_final_read_carries_data :
+  src_read_st 1 8 [[1; 2]%N; [3]%N] = ([1; 2]%N, [[]; [3]%N], 0%N) /\
+  src_read_st 1 8 [[]; [3]%N] = ([3]%N, [[]], 1%N) /\
+  copy_buffer_st 1 [[1; 2]%N; [3]%N] = Ok [1; 2; 3]%N /\ copy_buffer_st 9 [[1; 2]%N; [3]%N] = Ok [1; 2; 3]%N.
+Proof. repeat split; vm_compute; reflexivity. Qed.
+
 (* ================= proxy_proto.go ================= *)
 Definition no_sep (f : str) : Prop := ~ In 32%N f.
 
@@ -149,6 +185,15 @@ Proof.
   intros H. inversion H as [H1]. apply Hl.
   apply (f_equal (@length N)) in H1. rewrite app_length in H1.
   destruct line; [reflexivity | cbn [length] in H1; lia].
+Qed.
+
+(* the stream the upstream receives does not depend on whether the client's last bytes come
+   with an error or before it *)
+Theorem upstream_stream_f_eq : forall k pp line segs fin,
+  upstream_stream_f k pp line segs fin = upstream_stream k pp line segs.
+Proof.
+  intros k pp line segs fin. destruct k; try reflexivity;
+    unfold upstream_stream_f, upstream_stream; rewrite copy_preserves_stream_st, copy_preserves_stream; reflexivity.
 Qed.
 
 (* ================= the first finished direction ends the tunnel ================= *)
@@ -491,8 +536,8 @@ Lemma sni_handshake_inv : forall line segs pre b,
   wf b /\ exists data, pre = line ++ data /\ data ++ pending b = concat segs.
 Proof.
   intros line segs pre b. unfold sni_handshake.
-  assert (W0 : wf (new_reader 4096 segs)) by wf0.
-  destruct (peek (new_reader 4096 segs) 9) as [[[hdr e1] b1]|k1|] eqn:P; cbn [bind]; try discriminate.
+  assert (W0 : wf (new_reader sni_buf_size segs)) by wf0.
+  destruct (peek (new_reader sni_buf_size segs) 9) as [[[hdr e1] b1]|k1|] eqn:P; cbn [bind]; try discriminate.
   destruct (peek_pending _ _ _ _ _ P) as [P1 _]. pose proof (peek_wf _ _ _ _ _ W0 P) as W1.
   destruct (negb (e1 =? 0)%N); [discriminate|].
   destruct (client_hello_buffer_size hdr) as [size|k2|]; try discriminate.
@@ -575,13 +620,13 @@ Definition wit_reply : str := bs "HTTP/1.1 101 Switching Protocols
    and nothing else, the upstream nothing *)
 Theorem ws_split_101_refuted :
   exists e, has_prefix wit_reply ws_101 = true /\ region_ws_split KWs wit_reply 10 = true /\
-    scenario_expect KWs false [] [[1; 2]%N] false CStay UAtConnect wit_reply 10 (nlen' wit_reply) UStay = Ok e /\
+    scenario_expect KWs false [] [[1; 2]%N] 0 false CStay UAtConnect wit_reply 10 (nlen' wit_reply) UStay = Ok e /\
     e_cl e = firstn 10 wit_reply /\ e_cl_hi e = 10%N /\ e_up e = [] /\
     spec_b KWs false [] [1; 2]%N false CStay UAtConnect wit_reply UStay (e_up e) (e_cl e) = false.
 Proof. eexists. repeat split; vm_compute; reflexivity. Qed.
 
 Example ws_unsplit_accepted :
-  exists e, scenario_expect KWs false [] [[1; 2]%N] false CStay UAtConnect wit_reply 0 (nlen' wit_reply) UStay = Ok e /\
+  exists e, scenario_expect KWs false [] [[1; 2]%N] 0 false CStay UAtConnect wit_reply 0 (nlen' wit_reply) UStay = Ok e /\
     e_cl e = wit_reply /\ e_cl_lo e = nlen' wit_reply /\ e_up e = [1; 2]%N /\ e_up_lo e = 2%N.
 Proof. eexists. repeat split; vm_compute; reflexivity. Qed.
 
@@ -592,13 +637,13 @@ Proof. induction s as [|x s IH]; cbn [is_prefix]; [reflexivity|]. now rewrite N.
 
 Theorem half_close_scenario_refuted :
   exists e, region_half_close false CHalf = true /\
-    scenario_expect KTcp false [] [[1; 2; 3]%N] false CHalf UOnEOF [7; 8]%N 0 0 UClose = Ok e /\
+    scenario_expect KTcp false [] [[1; 2; 3]%N] 0 false CHalf UOnEOF [7; 8]%N 0 0 UClose = Ok e /\
     e_up e = [1; 2; 3]%N /\ e_up_lo e = 3%N /\ e_cl_hi e = 0%N /\
     spec_b KTcp false [] [1; 2; 3]%N false CHalf UOnEOF [7; 8]%N UClose [1; 2; 3]%N [] = false.
 Proof. eexists. repeat split; vm_compute; reflexivity. Qed.
 
 Example waiting_client_scenario :
-  exists e, scenario_expect KTcp false [] [[1; 2; 3]%N] true CHalf (UAfterBytes 3) [7; 8]%N 0 0 UStay = Ok e /\
+  exists e, scenario_expect KTcp false [] [[1; 2; 3]%N] 0 true CHalf (UAfterBytes 3) [7; 8]%N 0 0 UStay = Ok e /\
     e_up_lo e = 3%N /\ e_cl_lo e = 2%N /\
     spec_b KTcp false [] [1; 2; 3]%N true CHalf (UAfterBytes 3) [7; 8]%N UStay [1; 2; 3]%N [7; 8]%N = true.
 Proof. eexists. repeat split; vm_compute; reflexivity. Qed.
@@ -769,7 +814,7 @@ Qed.
    that record and leaves the rest pending *)
 Lemma sni_handshake_steps : forall line segs n name,
   sni_route_name (concat segs) = Ok (n, name) -> name <> [] ->
-  exists b1 b, peek (new_reader 4096 segs) 9 = Ok (firstn 9 (concat segs), 0%N, b1) /\
+  exists b1 b, peek (new_reader sni_buf_size segs) 9 = Ok (firstn 9 (concat segs), 0%N, b1) /\
             read_full b1 (N.to_nat n) = Ok (firstn (N.to_nat n) (concat segs), 0%N, b) /\
             sni_handshake line segs = Ok (Some (line ++ firstn (N.to_nat n) (concat segs), b)) /\ wf b /\
             firstn (N.to_nat n) (concat segs) ++ pending b = concat segs.
@@ -786,10 +831,10 @@ Proof.
   apply slice_ok in Hsl. destruct Hsl as [-> _]. rewrite Nat.sub_0_r in Hfr. cbn [skipn] in Hfr.
   apply from_ok in Hfr. destruct Hfr as [-> _].
   apply N.leb_le in H9, Hn. unfold nlen in H9, Hn.
-  assert (W0 : wf (new_reader 4096 segs)) by wf0.
-  assert (P0 : pending (new_reader 4096 segs) = stream) by reflexivity.
-  destruct (peek_exact (new_reader 4096 segs) 9 W0) as [b1 [Hp [P1 W1]]].
-  { cbn [new_reader b_cap]. repeat constructor. }
+  assert (W0 : wf (new_reader sni_buf_size segs)) by wf0.
+  assert (P0 : pending (new_reader sni_buf_size segs) = stream) by reflexivity.
+  destruct (peek_exact (new_reader sni_buf_size segs) 9 W0) as [b1 [Hp [P1 W1]]].
+  { cbn [new_reader b_cap]. apply Nat.leb_le. vm_compute. reflexivity. }
   { rewrite P0. lia. }
   destruct (read_full_exact b1 (N.to_nat n) W1) as [b2 [Hrf [P2 W2]]].
   { rewrite P1, P0. lia. }
@@ -827,8 +872,8 @@ Proof.
   { intros st. rewrite copy_preserves_stream. discriminate. }
   destruct k; try apply Hc.
   unfold sni_handshake.
-  assert (W0 : wf (new_reader 4096 segs)) by wf0.
-  destruct (peek (new_reader 4096 segs) 9) as [[[hdr e1] b1]|k1|] eqn:P; cbn [bind]; try discriminate.
+  assert (W0 : wf (new_reader sni_buf_size segs)) by wf0.
+  destruct (peek (new_reader sni_buf_size segs) 9) as [[[hdr e1] b1]|k1|] eqn:P; cbn [bind]; try discriminate.
   2:{ intros E. inversion E; subst. apply (peek_never_out_of_fuel _ _ P). }
   pose proof (peek_wf _ _ _ _ _ W0 P) as W1.
   destruct (negb (e1 =? 0)%N); [discriminate|].
@@ -928,6 +973,9 @@ Proof.
     unfold nlen' in *. lia.
 Qed.
 
+Lemma ws_101_len : length ws_101 = 12%nat.
+Proof. reflexivity. Qed.
+
 Lemma has_prefix_firstn s p n : has_prefix s p = true -> (length p <= n)%nat -> has_prefix (firstn n s) p = true.
 Proof.
   intros H L. apply has_prefix_spec in H. destruct H as [r ->]. apply has_prefix_spec.
@@ -953,8 +1001,8 @@ Qed.
    outside the open finding regions (F-C09-2 half-close, F-C09-3 split 101, F-C09-4
    dynamic+pxyproto) and the close-with-unread-reply race, every observation within the model's
    forced outcome satisfies spec_b: the tripwire verdict 4 cannot arise from the model side *)
-Theorem scenario_meets_spec : forall k pp line segs cwait ce ut reply rseg1 whead ue e o_up o_cl,
-  scenario_expect k pp line segs cwait ce ut reply rseg1 whead ue = Ok e ->
+Theorem scenario_meets_spec : forall k pp line segs fin cwait ce ut reply rseg1 whead ue e o_up o_cl,
+  scenario_expect k pp line segs fin cwait ce ut reply rseg1 whead ue = Ok e ->
   region_dyn_proxyproto k pp = false -> region_ws_split k reply rseg1 = false ->
   region_half_close cwait ce = false ->
   race_close_unread_reply (spec_upstream k pp line (concat segs)) cwait ce ut = false ->
@@ -963,21 +1011,21 @@ Theorem scenario_meets_spec : forall k pp line segs cwait ce ut reply rseg1 whea
   within o_cl (e_cl e) (e_cl_lo e) (e_cl_hi e) = true ->
   spec_b k pp line (concat segs) cwait ce ut reply ue o_up o_cl = true.
 Proof.
-  intros k pp line segs cwait ce ut reply rseg1 whead ue e o_up o_cl He Rd Rw Rh Rr Hw Hup Hcl.
+  intros k pp line segs fin cwait ce ut reply rseg1 whead ue e o_up o_cl He Rd Rw Rh Rr Hw Hup Hcl.
   destruct (within_parts _ _ _ _ Hcl) as [Hclp Hcll].
   unfold spec_b.
   destruct k.
   - (* tcp *)
-    cbn [tunnelled negb]. unfold scenario_expect in He. rewrite tcp_upstream_stream in He. cbn [bind] in He.
+    cbn [tunnelled negb]. unfold scenario_expect in He. rewrite upstream_stream_f_eq, tcp_upstream_stream in He. cbn [bind] in He.
     inversion He; subst e. cbn [spec_upstream] in *. apply tunnel_expect_meets_spec; assumption.
   - (* tcp+sni *)
     unfold tunnelled. destruct (sni_route_name (concat segs)) as [[n [|c name]]|kk|] eqn:S; cbn [negb]; try reflexivity.
-    unfold scenario_expect in He.
+    unfold scenario_expect in He. rewrite upstream_stream_f_eq in He.
     rewrite (sni_upstream_stream_total pp line segs n (c :: name) S) in He by discriminate. cbn [bind] in He.
     inversion He; subst e. apply tunnel_expect_meets_spec; assumption.
   - (* tcp-dynamic, pxyproto off *)
     cbn [tunnelled negb]. cbn [region_dyn_proxyproto] in Rd. subst pp.
-    unfold scenario_expect in He. rewrite dynamic_upstream_stream in He. cbn [bind] in He.
+    unfold scenario_expect in He. rewrite upstream_stream_f_eq, dynamic_upstream_stream in He. cbn [bind] in He.
     inversion He; subst e. cbn [spec_upstream app] in *. apply tunnel_expect_meets_spec; assumption.
   - (* websocket *)
     unfold tunnelled. destruct (has_prefix reply ws_101) eqn:P; cbn [negb]; [|reflexivity].
@@ -986,7 +1034,7 @@ Proof.
     assert (P0 : has_prefix out0 ws_101 = true).
     { subst out0. cbn [ws_head_first] in Hw.
       destruct ut; [exact P | | ]; apply has_prefix_firstn; try exact P;
-        apply N.leb_le in Hw; change (length ws_101) with 12%nat; lia. }
+        apply N.leb_le in Hw; rewrite ws_101_len; lia. }
     set (seg1 := if ((0 <? rseg1)%N && (rseg1 <? nlen' out0)%N)%bool then firstn (N.to_nat rseg1) out0 else out0) in He.
     assert (P1 : ws_upgraded seg1 = true).
     { apply ws_upgrade_on_domain. subst seg1.
@@ -994,14 +1042,15 @@ Proof.
       apply has_prefix_firstn; [exact P0|].
       cbn [region_ws_split] in Rw. rewrite P in Rw. cbn [andb] in Rw.
       apply andb_true_iff in C. destruct C as [C _]. rewrite C in Rw. cbn [andb] in Rw.
-      apply N.ltb_ge in Rw. change (length ws_101) with 12%nat. lia. }
+      apply N.ltb_ge in Rw. rewrite ws_101_len. lia. }
     rewrite P1 in He. rewrite copy_preserves_stream in He. cbn [bind] in He.
     inversion He; subst e. clear He. cbn [e_up e_up_lo e_cl e_cl_lo e_cl_hi] in *.
-    cbn [spec_upstream] in *. apply tunnel_expect_meets_spec; try assumption. lia.
+    cbn [spec_upstream] in *. apply tunnel_expect_meets_spec; try assumption.
+    eapply N.le_trans; [apply N.le_max_r | exact Hcll].
 Qed.
 
 Example scenario_meets_spec_nonvacuous :
-  exists e, scenario_expect KSni true [80; 32]%N [wit_hello ++ [1; 2]%N; [3]%N] true CHalf (UAfterBytes 4) [7; 8]%N 0 0 UStay = Ok e /\
+  exists e, scenario_expect KSni true [80; 32]%N [wit_hello ++ [1; 2]%N; [3]%N] 1 true CHalf (UAfterBytes 4) [7; 8]%N 0 0 UStay = Ok e /\
     within ([80; 32]%N ++ wit_hello ++ [1; 2; 3]%N) (e_up e) (e_up_lo e) (nlen' (e_up e)) = true /\
     within [7; 8]%N (e_cl e) (e_cl_lo e) (e_cl_hi e) = true /\
     region_half_close true CHalf = false /\
@@ -1108,7 +1157,7 @@ Proof.
   intros line s1 s2 n name H Hname Hb.
   destruct (sni_handshake_steps line (s1 ++ s2) n name H Hname) as [b1 [b [Hp [Hrf [Hh _]]]]].
   destruct (sni_route_bound _ _ _ H) as [rl [_ [H10 _]]].
-  assert (B0 : bnd (new_reader 4096 (s1 ++ s2)) s2 (N.to_nat n)).
+  assert (B0 : bnd (new_reader sni_buf_size (s1 ++ s2)) s2 (N.to_nat n)).
   { exists s1. cbn [new_reader b_src b_buf length]. split; [reflexivity | lia]. }
   assert (B1 : bnd b1 s2 (N.to_nat n)) by (refine (peek_bnd _ 9%nat s2 (N.to_nat n) _ _ _ B0 _ Hp); lia).
   unfold read_full in Hrf.
